@@ -430,7 +430,7 @@ def div_exact_kinds(kinds):
     return f
 
 
-DIV_RULES["C17"] = div_exact_kinds({"addr.decode", "addr.deposit", "addr.verify"})
+DIV_RULES["C17"] = div_exact_kinds({"addr.decode", "addr.deposit", "addr.verify", "q.depositaddr"})
 DIV_RULES["C20"] = div_exact_kinds({"btc.validateparams"})
 
 
